@@ -750,7 +750,9 @@ class BatcherCheck(Check):
             'C04': 'non-trivial = a batch of >= 2 keys with a non-"value" behaviour or a non-forward order',
             'C09': 'non-trivial = a cancelled / timed-out caller whose batch or key was shared with a caller that was not cancelled',
             'C10': 'non-trivial = the size limit was reached, a batch waited for a slot, or a batch was closed by the timeout',
-            'C11': 'non-trivial = one call inside a pending/retention window and one after it',
+            'C11': '15 % of the programs keep the loop busy with synchronous work across deadlines (judged in log order only: no key '
+                   'twice in a batch, no new work and the same outcome while a request is surely pending); '
+                   'non-trivial = one call inside a pending/retention window and one after it',
         }[self.pid]
 
 
